@@ -2,6 +2,8 @@ import Drive.Util
 import Drive.Dma
 import TeakraModel.Bus
 import TeakraModel.MmioKinds
+import TeakraModel.Sys
+import Drive.Interp
 /-!
 Protocol driver of unit `bus`: the model side of `harness/u_bus.cpp` (a real `Teakra::Teakra`).
 
@@ -43,13 +45,9 @@ namespace Drive.BusDrive
 open Drive Drive.DmaDrive
 open Teakra
 
-structure BusSt where
-  bus : Bus := {}
-  ipend : Vector Bool 3 := Vector.replicate 3 false
-  vpend : Bool := false
-  vctx : Bool := false
-  vaddr : U32 := 0
-  deriving Inhabited
+/-- The unit's state is the whole machine: the bus, the interpreter's interrupt latches and (for the
+system-level ops `gen`, `poke`, `run`, `steps`, `state`) the register file and idle flag. -/
+abbrev BusSt := Core
 
 def showEvent : PEvent → String
   | .irq l => s!"i{hex l}"
@@ -102,14 +100,14 @@ def digestCell (b : Bus) (off : Nat) : UInt64 :=
   | .error _ => 0x10000
 
 def mmioDigest (b : Bus) : UInt64 := Id.run do
-  let mut h := fnvInit
+  let mut h := Drive.DmaDrive.fnvInit
   for off in [0:0x800] do
     if off = 0xC2 ∨ off = 0xC6 ∨ off = 0xCA then continue
     h := fnvLE h (digestCell b off) 3
   return h
 
 def memDigest (m : Mem) : UInt64 := Id.run do
-  let mut h := fnvInit
+  let mut h := Drive.DmaDrive.fnvInit
   for wa in [0:0x40000] do
     let x := UInt64.ofNat (m.read wa).toNat
     h := fnvByte (fnvByte h x) (x >>> 8)
@@ -194,6 +192,27 @@ def viewCheck (st : BusSt) (path : String) (w : Nat) (v : U16) : BusSt × String
   | none => (st, "skip")
   | some b' => ({ st with bus := b' }, "same")
 
+
+def showLatches (st : BusSt) : String :=
+  s!"{hex st.ipend[0].toNat} {hex st.ipend[1].toNat} {hex st.ipend[2].toNat} {hex st.vpend.toNat} " ++
+    (if st.vpend then s!"{hex st.vctx.toNat} {hexBV st.vaddr}" else "0 0")
+
+def showStop : Stop → String
+  | .abort a => toString a
+  | .unmodelled k => s!"unmodelled {k}"
+
+/-- `n` times `Run(1)`. -/
+def stepsN : Nat → Core → Except Stop Core
+  | 0, c => .ok c
+  | n + 1, c =>
+    match Sys.run 1 c with
+    | .ok c' => stepsN n c'
+    | .error e => .error e
+
+def runAns (st : BusSt) (r : Except Stop Core) : BusSt × String :=
+  match r with
+  | .ok c => ({ c with events := [], log := [] }, s!"ok | {showEvents c.events.reverse}")
+  | .error e => (st, showStop e)
 
 def isFifo (off : Nat) : Bool := off = 0xC2 || off = 0xC6 || off = 0xCA
 
@@ -293,6 +312,27 @@ def busStep (st : BusSt) (args : List String) : BusSt × String :=
     match b.dmaChan0GetDstHigh with
     | .ok (v, b') => ({ st with bus := b' }, s!"{hexBV v} | -")
     | .error e => (st, toString e)
+  | ["dump"] => (st, Drive.dumpAll st.regs)
+  | ["regdigest"] => (st, hex (Drive.regDigest st.regs))
+  | ["latches"] => (st, showLatches st)
+  | ["state"] =>
+    (st, s!"{hex (Drive.regDigest st.regs)} {hex64 (mmioDigest b)} {hex64 (memDigest b.mem)} | {showLatches st}")
+  | ["gen", seed] =>
+    match parseHex seed with
+    | some sd => ({ st with regs := Drive.genRegs sd }, "ok")
+    | none => (st, "bad-op")
+  | ["poke", name, v] =>
+    match Drive.flatIndex name, parseHex v with
+    | some i, some v => ({ st with regs := Regs.ofFlat (st.regs.toFlat.set! i v) }, "ok")
+    | _, _ => (st, "bad-op")
+  | ["run", n] =>
+    match parseHex n with
+    | some n => if n > 0x4000000 then (st, "bad-op") else runAns st (Sys.run n { st with events := [], log := [] })
+    | none => (st, "bad-op")
+  | ["steps", n] =>
+    match parseHex n with
+    | some n => if n > 0x4000000 then (st, "bad-op") else runAns st (stepsN n { st with events := [], log := [] })
+    | none => (st, "bad-op")
   | ["tick"] => ansU st b.tick
   | ["tstate"] => (st, tstate b)
   | ["digest"] => (st, hex64 (mmioDigest b))
